@@ -372,6 +372,18 @@ def natural_sort(file_list: Iterable[str], signed: bool = True) -> list[str]:
   return sorted(file_list, key=split_keys)
 
 
+def _sort_checkpoints(checkpoint_files: list[str], base_path: str) -> list[str]:
+  """Sorts checkpoint paths by the step label that follows ``base_path``.
+
+  The prefix is not part of the step: the last character of a prefix such as
+  'model.ckpt-' or 'ckpt.' must not be read as a sign or a decimal point.
+  """
+  if not all(f.startswith(base_path) for f in checkpoint_files):
+    return natural_sort(checkpoint_files)
+  labels = natural_sort([f[len(base_path) :] for f in checkpoint_files])
+  return [base_path + label for label in labels]
+
+
 def safe_normpath(path: str) -> str:
   """Normalizes path safely to get around `io.glob()` limitations."""
   match = SCHEME_RE.match(path)
@@ -402,7 +414,7 @@ def _remove_invalid_ckpts(
     and not c.match(f'{prefix}tmp')
     and not c.match(f'*{ocp.utils.TMP_DIR_SUFFIX}*')
   ]
-  checkpoint_files = natural_sort(checkpoint_files)
+  checkpoint_files = _sort_checkpoints(checkpoint_files, base_path)
 
   # Remove newer checkpoints
   if overwrite and ckpt_path in checkpoint_files:
@@ -426,7 +438,7 @@ def _remove_invalid_ckpts(
     # Note: old_ckpts is sorted from oldest to newest.
     for path in old_ckpts:
       if keep_every_n_steps:
-        step_number = _checkpoint_path_step(path)
+        step_number = _checkpoint_path_step(path[len(base_path) :])
         if (
           step_number is not None
           and (step_number - last_kept) >= keep_every_n_steps
@@ -526,7 +538,7 @@ def _check_overwrite_error(
     raise errors.InvalidCheckpointError(ckpt_path, step)
   checkpoint_files.append(ckpt_path)
 
-  checkpoint_files = natural_sort(checkpoint_files)
+  checkpoint_files = _sort_checkpoints(checkpoint_files, base_path)
   # Handle the case if the job was preempted after the temporary checkpoint
   # was written, but before it was renamed to the final checkpoint name
   if checkpoint_files[-1] == ckpt_tmp_path:
@@ -952,7 +964,9 @@ def _all_checkpoints(
     and not c.match(f'*{MP_ARRAY_POSTFIX}')
     and not c.match(f'*{ocp.utils.TMP_DIR_SUFFIX}*')
   ]
-  checkpoint_files = natural_sort(checkpoint_files)
+  checkpoint_files = _sort_checkpoints(
+    checkpoint_files, os.path.join(ckpt_dir, prefix)
+  )
   if checkpoint_files:
     return checkpoint_files
   else:
